@@ -38,7 +38,7 @@ Section Preds.
 
   Theorem is_symmetric_def : forall m : mat,
     is_symmetric O m = true <->
-    nrows m = ncols m /\ forall i j, i < nrows m -> j < ncols m -> i <= j -> differ O (entry m i j) (entry m j i) = false.
+    nrows m = ncols m /\ forall i j, i < nrows m -> j < ncols m -> i <= j -> sym_differ O (entry m i j) (entry m j i) = false.
   Proof.
     intros m. unfold is_symmetric, is_square, entry. destruct (Nat.eqb_spec (nrows m) (ncols m)) as [E|E].
     - rewrite forallb_forall. split.
@@ -79,18 +79,18 @@ Section Preds.
   Qed.
 End Preds.
 
-(** on the reals: symmetric = square with |a_ij - a_ji| <= 2^-52 for ALL i, j *)
+(** on the reals: symmetric = square with |a_ij - a_ji| <= 2^-52 * max(|a_ij|, |a_ji|) for ALL i, j *)
 Local Open Scope R_scope.
 Theorem is_symmetric_R : forall m : mat R,
   is_symmetric RO m = true <->
   nrows m = ncols m /\ forall i j, (i < nrows m)%nat -> (j < ncols m)%nat ->
-     Rabs (entry RO m i j - entry RO m j i) <= eps_R.
+     Rabs (entry RO m i j - entry RO m j i) <= eps_R * Rmax (Rabs (entry RO m i j)) (Rabs (entry RO m j i)).
 Proof.
   intros m. rewrite is_symmetric_def. split; intros [E H]; split; auto.
   - intros i j Hi Hj. destruct (Nat.le_gt_cases i j).
-    + apply differ_RO. apply H; auto.
-    + rewrite Rabs_minus_sym. apply differ_RO. apply H; lia.
-  - intros i j Hi Hj Hij. apply differ_RO. apply H; auto.
+    + apply sym_differ_RO. apply H; auto.
+    + rewrite Rabs_minus_sym, Rmax_comm. apply sym_differ_RO. apply H; lia.
+  - intros i j Hi Hj Hij. apply sym_differ_RO. apply H; auto.
 Qed.
 
 Theorem triangular_R : forall m : mat R,
